@@ -23,6 +23,8 @@ type genStats struct {
 	Bumps    int
 	Gate     int
 	GateHits int
+	Sibling  int
+	SibHits  int
 	Rejected int // candidate polygons the implementation's Validate refused (not used)
 	EmptyMem int
 }
@@ -335,4 +337,61 @@ func diameter(g geom.Geometry) float64 {
 		return 0
 	}
 	return math.Hypot(mx.X-mn.X, mx.Y-mn.Y)
+}
+
+// ringFrom builds a closed ring from lattice positions: random start vertex, random orientation,
+// repeated vertices.
+func ringFrom(r *lib.Rng, ct geom.CoordinatesType, c coordSrc, pts [][2]int, ox, oy int, st *genStats) *lib.Node {
+	ring := &lib.Node{Kind: lib.KLine, CT: ct}
+	var vs [][4]float64
+	for _, p := range pts {
+		vs = append(vs, vtx(c, ct, ox+p[0], oy+p[1]))
+	}
+	rot := r.Intn(len(vs))
+	vs = append(vs[rot:], vs[:rot]...)
+	if r.Bool() {
+		for i, j := 0, len(vs)-1; i < j; i, j = i+1, j-1 {
+			vs[i], vs[j] = vs[j], vs[i]
+		}
+	}
+	vs = append(vs, vs[0])
+	ring.C = clearUnused(addDups(r, vs, st), ct)
+	return ring
+}
+
+// genSiblingBay: a MultiPolygon whose members are valid and disjoint, and stay valid one by one
+// after simplification, but interact with each other once simplified (only the final Validate
+// of the assembled MultiPolygon can see it). Two shapes:
+//   - bay: member A has a V-shaped bay of depth dn in its right side, member B is a triangle whose
+//     tip sits in the bay; for t > dn the bay is simplified away and B's tip lies inside A;
+//   - island: member A has a hole with a V-shaped bulge, member B is an island in the hole whose tip
+//     sits in the bulge; for t > dn the bulge is simplified away and B's tip lies in A's material.
+//
+// Returns the node and the depth dn (thresholds slightly above it are the interesting ones).
+func genSiblingBay(r *lib.Rng, ct geom.CoordinatesType, c coordSrc, st *genStats) (*lib.Node, float64) {
+	ox, oy := r.Range(-5, 5), r.Range(-5, 5)
+	dn := r.Range(2, 5)
+	mp := &lib.Node{Kind: lib.KMPoly, CT: ct}
+	poly := func(rings ...*lib.Node) *lib.Node { return &lib.Node{Kind: lib.KPoly, CT: ct, Kids: rings} }
+	if r.Bool() {
+		a := [][2]int{{0, 0}, {10, 0}, {10, 3}, {10 - dn, 5}, {10, 7}, {10, 10}, {0, 10}}
+		tip := 10 - dn + 1 + r.Intn(dn-1)
+		b := [][2]int{{tip, 5}, {20 + r.Range(0, 4), 0}, {20 + r.Range(0, 4), 10}}
+		mp.Kids = []*lib.Node{poly(ringFrom(r, ct, c, a, ox, oy, st)), poly(ringFrom(r, ct, c, b, ox, oy, st))}
+	} else {
+		shell := [][2]int{{-15, -15}, {15, -15}, {15, 15}, {-15, 15}}
+		hole := [][2]int{{-6, -6}, {6, -6}, {6, -2}, {6 + dn, 0}, {6, 2}, {6, 6}, {-6, 6}}
+		tip := 6 + 1 + r.Intn(dn-1)
+		b := [][2]int{{tip, 0}, {-4, -3 - r.Intn(2)}, {-4, 3 + r.Intn(2)}}
+		mp.Kids = []*lib.Node{poly(ringFrom(r, ct, c, shell, ox, oy, st), ringFrom(r, ct, c, hole, ox, oy, st)),
+			poly(ringFrom(r, ct, c, b, ox, oy, st))}
+	}
+	if r.Bool() {
+		mp.Kids[0], mp.Kids[1] = mp.Kids[1], mp.Kids[0]
+	}
+	if r.Chance(1, 3) {
+		// a third member far away
+		mp.Kids = append(mp.Kids, genPolyNode(r, ct, c, ox+60, oy, st))
+	}
+	return mp, float64(dn)
 }
